@@ -23,6 +23,9 @@ PARTIAL = [
     "other face); when the spacing does NOT divide size-1 the grid (hence the mesh) ends before parameter 1: the theorems then speak "
     "about [0,(nu-1)u_jump]x[0,(nv-1)v_jump], as the code does; the quad mesh has vertex parameters (C15.quad_vertex_parameters*) but "
     "no point-set tiling theorem of its own (its cells are the grid cells)",
+    "vertex positions: C15.vertex_is_surface_point states for the model functions makeTriangleMesh, surfaceGrid (evalpts on linspace(0,1,.)) and surfacePoint together that "
+    "the evaluated point a vertex copies (index src) IS the surface point at the parameters (uv) the vertex stores - domain [0,1]^2 only; that Surface.tessellate re-evaluates "
+    "instead of copying is tied by the 'pos' stream, not by a theorem",
     "file syntax of OBJ/OFF/STL (keywords, number printing, float32 packing of binary STL) is checked by the oracle only; the "
     "model covers index offsets, counts and the facet normal",
 ]
